@@ -181,6 +181,26 @@ PROPS = {
         "value of the last setter of each kind. distinct non-trivial = distinct (kind x shape) buckets.",
         ["oc"], ["oc", "nostd"],
     ),
+    "C08": P(
+        "model_checking",
+        "Every case is a complete Block2 transfer through the real handler via encoded bytes (requests by the reference encoder, "
+        "replies read by the reference parser): budget x body length x client strategy (no preference / early SZX / mid-transfer "
+        "reductions = deviations) x application option set x start state. Family A: budgets overhead+28..+92 x every body length "
+        "0..=98; family B: budgets +-2 around overhead+12+2^k, 1152, 1280 x boundary lengths x all strategies. Oracle on the "
+        "client side: reassembly == body, block sizes/more flags/numbers vs offsets, option echo, application consulted once, "
+        "cache released. states = distinct handler snapshots (hook) seen after an exchange, transitions = exchanges, each "
+        "validated by the client-side oracle. distinct non-trivial = max(distinct snapshots, distinct case-shape buckets).",
+        ["oc"], ["oc", "rel"],
+    ),
+    "C09": P(
+        "model_checking",
+        "Every case is a complete Block1 upload through the real handler via encoded bytes: SZX x body length (every length for "
+        "SZX 0/1, boundary lengths for 2..6, 5000) x budget (admitting the block size) x per-block delivery counts 1..3 "
+        "(deviations) x abandoned predecessor upload of 0..6 blocks. Oracle: 2.31 + Block1 echo for non-final blocks without "
+        "reaching the application, final block hands over exactly the body once, 4.13 + size hint for oversize requests without "
+        "Block1. states = distinct handler snapshots, transitions = exchanges.",
+        ["oc"], ["oc", "rel"],
+    ),
 }
 
 
